@@ -39,6 +39,8 @@ def ol(x, f):
 
 
 def lit(k, o):
+    if o['pbn_back'] and isinstance(o['pbn_back'][0], str):
+        o = dict(o, pbn_back=[[], [], [], [51]])      # a wrong deal: reported by the oracle as a PBN round-trip failure
     ll = lambda d: '[' + ';'.join(pc.nl(h) for h in d) + ']'
     ls = lambda d: '[' + ';'.join('[' + ';'.join(lib.cstr(s) for s in h) + ']' for h in d) + ']'
     return f"({ll(k['deal'])}, {k['first']}, {ol(o['pbn'], lib.cstr)}, {ol(o['pbn_back'], ll)}, {ol(o['bin'], ll)}, {ol(o['bin_back'], ll)}, " \
